@@ -391,6 +391,58 @@ package process
 //@   loop 1 invariant (forall j int :: 0 <= j && j <= idx && !p.parameters[j].IsSelf ==> identsOf(p.parameters, idx + 1)[p.parameters[j].Ident])
 //@   loop 1 invariant (forall x string :: identsOf(p.parameters, idx + 1)[x] ==> (exists j int :: 0 <= j && j <= idx && !p.parameters[j].IsSelf && p.parameters[j].Ident == x))
 
+// the list helpers behind FreeNames: removing a bound name removes exactly the entries that are that name; merging keeps
+// the first list as it is and adds, from the second, the entries that are not yet there
+//@ contract removeBoundName
+//@   ensures C14.removeOnly: forall k int :: 0 <= k && k < len(freeNames) ==> (exists j int :: 0 <= j && j < len(names) && freeNames[k] == names[j] && !sameName(names[j], boundName))
+//@   ensures C14.removeAll: forall j int :: 0 <= j && j < len(names) && !sameName(names[j], boundName) ==> (exists k int :: 0 <= k && k < len(freeNames) && freeNames[k] == names[j])
+//@   loop 1 invariant forall k int :: 0 <= k && k < len(freeNames) ==> (exists j int :: 0 <= j && j <= idx && freeNames[k] == names[j] && !sameName(names[j], boundName))
+//@   loop 1 invariant forall j int :: 0 <= j && j <= idx && !sameName(names[j], boundName) ==> (exists k int :: 0 <= k && k < len(freeNames) && freeNames[k] == names[j])
+//@ contract mergeTwoNamesList
+//@   ensures C14.mergeKeeps: len(result) >= len(names1) && (forall k int :: 0 <= k && k < len(names1) ==> result[k] == names1[k])
+//@   ensures C14.mergeAdds: forall j int :: 0 <= j && j < len(names2) ==> (exists k int :: 0 <= k && k < len(result) && sameName(result[k], names2[j]))
+//@   ensures C14.mergeOnly: forall k int :: len(names1) <= k && k < len(result) ==> (exists j int :: 0 <= j && j < len(names2) && result[k] == names2[j])
+//@   loop 1 invariant len(names1) >= len(names10) && (forall k int :: 0 <= k && k < len(names10) ==> names1[k] == names10[k])
+//@   loop 1 invariant forall j int :: 0 <= j && j <= idx ==> (exists k int :: 0 <= k && k < len(names1) && sameName(names1[k], names2[j]))
+//@   loop 1 invariant forall k int :: len(names10) <= k && k < len(names1) ==> (exists j int :: 0 <= j && j <= idx && names1[k] == names2[j])
+// FreeNames of the formers that bind: what the continuation reports is filtered by exactly the former's binders, and no
+// binder is reported free (other than as the former's own subject)
+//@ contract (*ReceiveForm).FreeNames
+//@   ensures C14.fnRecvBinders: forall k int :: 0 <= k && k < len(result) ==> result[k] == p.from_c || (!sameName(result[k], p.payload_c) && !sameName(result[k], p.continuation_c))
+//@   callsite C14.fnRecvKid process.Form.FreeNames#1: arg0 == p.continuation_e
+//@   callsite C14.fnRecvB1 process.removeBoundName#1: arg1 == p.payload_c
+//@   callsite C14.fnRecvB2 process.removeBoundName#2: arg0 == continuation_e_excluding_bound_names && arg1 == p.continuation_c
+//@   callsite C14.fnRecvMerge process.mergeTwoNamesList#1: arg1 == continuation_e_excluding_bound_names
+//@ contract (*BranchForm).FreeNames
+//@   ensures C14.fnBranchBinder: forall k int :: 0 <= k && k < len(result) ==> !sameName(result[k], p.payload_c)
+//@   callsite C14.fnBranchKid process.Form.FreeNames#1: arg0 == p.continuation_e
+//@   callsite C14.fnBranchB process.removeBoundName#1: arg1 == p.payload_c
+//@ contract (*SplitForm).FreeNames
+//@   ensures C14.fnSplitBinders: forall k int :: 0 <= k && k < len(result) ==> result[k] == p.from_c || (!sameName(result[k], p.channel_one) && !sameName(result[k], p.channel_two))
+//@   callsite C14.fnSplitKid process.Form.FreeNames#1: arg0 == p.continuation_e
+//@   callsite C14.fnSplitB1 process.removeBoundName#1: arg1 == p.channel_one
+//@   callsite C14.fnSplitB2 process.removeBoundName#2: arg0 == continuation_e_excluding_bound_names && arg1 == p.channel_two
+//@   callsite C14.fnSplitMerge process.mergeTwoNamesList#1: arg1 == continuation_e_excluding_bound_names
+//@ contract (*ShiftForm).FreeNames
+//@   ensures C14.fnShiftBinder: forall k int :: 0 <= k && k < len(result) ==> result[k] == p.from_c || !sameName(result[k], p.continuation_c)
+//@   callsite C14.fnShiftKid process.Form.FreeNames#1: arg0 == p.continuation_e
+//@   callsite C14.fnShiftB process.removeBoundName#1: arg1 == p.continuation_c
+//@   callsite C14.fnShiftMerge process.mergeTwoNamesList#1: arg1 == continuation_e_excluding_bound_names
+//@ contract (*NewForm).FreeNames
+//@   callsite C14.fnNewBody process.Form.FreeNames#1: arg0 == p.body
+//@   callsite C14.fnNewKid process.Form.FreeNames#2: arg0 == p.continuation_e
+//@   callsite C14.fnNewB process.removeBoundName#1: arg1 == p.new_name_c
+//@   callsite C14.fnNewMerge1 process.mergeTwoNamesList#1: arg1 == body_free_names
+//@   callsite C14.fnNewMerge2 process.mergeTwoNamesList#2: arg0 == fn && arg1 == continuation_e_excluding_bound_names
+//@ contract (*CaseForm).FreeNames
+//@   callsite C14.fnCaseBranch (*process.BranchForm).FreeNames#1: arg0 == p.branches[idx1 + 1]
+//@   callsite C14.fnCaseMerge process.mergeTwoNamesList#1: arg0 == fn
+//@ contract (*WaitForm).FreeNames
+//@   callsite C14.fnWaitKid process.Form.FreeNames#1: arg0 == p.continuation_e
+//@ contract (*DropForm).FreeNames
+//@   callsite C14.fnDropKid process.Form.FreeNames#1: arg0 == p.continuation_e
+//@ contract (*PrintForm).FreeNames
+//@   callsite C14.fnPrintKid process.Form.FreeNames#1: arg0 == p.continuation_e
 //@ contract FormHasContinuation
 //@   ensures C05.hasCont: result == !axiomatic(form)
 //@   pure
